@@ -27,6 +27,19 @@
  *                                     modes 0 and 3 then extend i_size to c[ib] as fuse2fs does without KEEP_SIZE
  *   flush <f> | reopen <f> | remount  ext2fs_file_flush / close+open of the handle / close both, ext2fs_close, open again
  *   fill <n>                          (image preparation) write a filler file until at most n blocks are free
+ *   mkballast                         create the block-mapped file "ballast" (owner 2 of the accounting record): dead weight
+ *                                     that setfree uses to absorb free space; its 12 direct slots give steps of exactly one block
+ *   setfree <r>                       write to the ballast until exactly r allocation units are free (ENOSPC ladder)
+ *
+ * Every operation line also carries the ACCOUNTING record "acct" (allocation units = clusters): free = clear bits of the
+ * in-memory block bitmap, sb / gd = free counts of the superblock / summed over the group descriptors, own[f] = units mapped
+ * by file f (data + extent-tree / indirect / EA blocks, found with ext2fs_block_iterate3), ib[f] = i_blocks in units,
+ * stray = units marked in use that neither a followed file maps nor the base (everything in use before the first operation)
+ * holds, unm = units mapped or in the base whose bit is clear, shared = units mapped twice.  After remount and in the final
+ * line the bitmaps have just been read from disk, so the record is the ON-DISK state.
+ * write / falloc lines carry "path" = [entries, max] of the extent-tree nodes from the root to the leaf where the first block
+ * of the range would be inserted ([1,1] per missing indirect level for block-mapped files), taken BEFORE the call, "nd" = blocks
+ * of the range that were unmapped, and (write) "dcut" = cut index where the write stopped (-9 if not on a cut point).
  *   end                               close handles and filesystem, reopen read-only, final observation + inode fields
  *
  * Concrete part (ExtentMap / IndMap conformance), block numbers are literal:
@@ -52,8 +65,9 @@
 
 static const char *image;
 static ext2_filsys fs;
-static ext2_ino_t ino[NF];
-static int kind[NF];
+#define NT 3		/* owners followed by the accounting record: files 0, 1 and the ballast */
+static ext2_ino_t ino[NT];
+static int kind[NT];
 static ext2_file_t fh[NF];
 static long long cuts[NF][MAXCUT];
 static int ncut[NF];
@@ -294,6 +308,172 @@ static void observe_file(int f, ext2_file_t h, struct obs *o)
 	}
 }
 
+
+/* ---- accounting record (see header) ---- */
+static unsigned char *base_map;		/* per allocation unit: in use before the first operation, owned by no followed file */
+static blk64_t base_n;
+struct ownl { blk64_t *b; int n, cap; };
+static int own_proc(ext2_filsys xfs, blk64_t *blocknr, e2_blkcnt_t blockcnt, blk64_t ref_blk, int ref_offset, void *priv)
+{
+	struct ownl *o = priv;
+	(void) xfs; (void) blockcnt; (void) ref_blk; (void) ref_offset;
+	if (o->n == o->cap) {
+		o->cap = o->cap ? o->cap * 2 : 1024;
+		o->b = realloc(o->b, o->cap * sizeof(blk64_t));
+	}
+	o->b[o->n++] = *blocknr;
+	return 0;
+}
+
+static int cmpblk(const void *a, const void *b)
+{
+	blk64_t x = *(const blk64_t *) a, y = *(const blk64_t *) b;
+	return x < y ? -1 : x > y;
+}
+
+static void print_acct(void)
+{
+	blk64_t nb = ext2fs_blocks_count(fs->super), c, c0, c1, nfree = 0, stray = 0, unm = 0, shared = 0, gd = 0, sb;
+	unsigned int ratio = EXT2FS_CLUSTER_RATIO(fs), unit512 = ratio * (fs->blocksize / 512);
+	unsigned char *cnt;
+	long long own[NT], ib[NT];
+	dgrp_t g;
+	int f, i;
+
+	c0 = EXT2FS_B2C(fs, fs->super->s_first_data_block);
+	c1 = EXT2FS_B2C(fs, nb - 1);
+	cnt = calloc(c1 + 1, 1);
+	for (f = 0; f < NT; f++) {
+		struct ownl o;
+		struct ext2_inode in;
+		blk64_t last = ~0ULL;
+		errcode_t e;
+		own[f] = 0; ib[f] = 0;
+		if (!ino[f])
+			continue;
+		memset(&o, 0, sizeof(o));
+		if (ext2fs_read_inode(fs, ino[f], &in))
+			die("acct read_inode", 0);
+		ib[f] = (ext2fs_get_stat_i_blocks(fs, &in) % unit512) ? -1 : (long long) (ext2fs_get_stat_i_blocks(fs, &in) / unit512);
+		if (!(in.i_flags & EXT4_INLINE_DATA_FL)) {
+			e = ext2fs_block_iterate3(fs, ino[f], BLOCK_FLAG_READ_ONLY, NULL, own_proc, &o);
+			if (e)
+				die("acct block_iterate3", e);
+		}
+		if (ext2fs_file_acl_block(fs, &in)) {
+			blk64_t a = ext2fs_file_acl_block(fs, &in);
+			own_proc(fs, &a, 0, 0, 0, &o);
+		}
+		qsort(o.b, o.n, sizeof(blk64_t), cmpblk);
+		for (i = 0; i < o.n; i++) {
+			if (i && o.b[i] == o.b[i - 1]) {	/* the same block mapped twice by one file */
+				shared++;
+				continue;
+			}
+			if (o.b[i] >= nb || o.b[i] < fs->super->s_first_data_block) {
+				shared++;			/* a mapping outside the filesystem */
+				continue;
+			}
+			c = EXT2FS_B2C(fs, o.b[i]);
+			if (c == last)
+				continue;
+			last = c;
+			own[f]++;
+			if (cnt[c] < 200)
+				cnt[c]++;
+		}
+		free(o.b);
+	}
+	if (!base_map) {
+		base_n = c1 + 1;
+		base_map = calloc(base_n, 1);
+		for (c = c0; c <= c1; c++)
+			base_map[c] = ext2fs_test_block_bitmap2(fs->block_map, EXT2FS_C2B(fs, c)) && !cnt[c];
+	}
+	for (c = c0; c <= c1; c++) {
+		int bit = ext2fs_test_block_bitmap2(fs->block_map, EXT2FS_C2B(fs, c)) ? 1 : 0;
+		if (!bit)
+			nfree++;
+		if (bit && !base_map[c] && !cnt[c])
+			stray++;
+		if (!bit && (base_map[c] || cnt[c]))
+			unm++;
+		if (cnt[c] > 1 || (cnt[c] && base_map[c]))
+			shared++;
+	}
+	for (g = 0; g < fs->group_desc_count; g++)
+		gd += ext2fs_bg_free_blocks_count(fs, g);
+	sb = ext2fs_free_blocks_count(fs->super);
+	printf(",\"acct\":{\"free\":%llu,\"sb\":%lld,\"gd\":%llu,\"own\":[%lld,%lld,%lld],\"ib\":[%lld,%lld,%lld],\"stray\":%llu,\"unm\":%llu,\"shared\":%llu}",
+	       (unsigned long long) nfree, (sb % ratio) ? -1LL : (long long) (sb / ratio), (unsigned long long) gd,
+	       own[0], own[1], own[2], ib[0], ib[1], ib[2],
+	       (unsigned long long) stray, (unsigned long long) unm, (unsigned long long) shared);
+	free(cnt);
+}
+
+/* occupancy of the extent-tree path (root first) to the leaf where logical block lblk lives or would be inserted; for a
+   block-mapped file one [missing, 1] pair per indirect level the block needs; nd = unmapped blocks among [lblk, lblk + n) */
+static char pathbuf[256];
+static int path_nd;
+static void path_facts(int f, blk64_t lblk, blk64_t n)
+{
+	struct ext2_inode in;
+	int lev[8][2], nl = 0, i;
+	char *p = pathbuf;
+	blk64_t b;
+
+	strcpy(pathbuf, "[]");
+	path_nd = 0;
+	if (ext2fs_read_inode(fs, ino[f], &in) || (in.i_flags & EXT4_INLINE_DATA_FL))
+		return;
+	for (b = lblk; b < lblk + n && b < lblk + 64; b++) {
+		blk64_t x = 0;
+		if (!ext2fs_bmap2(fs, ino[f], &in, NULL, 0, b, NULL, &x) && !x)
+			path_nd++;
+	}
+	if (in.i_flags & EXT4_EXTENTS_FL) {
+		ext2_extent_handle_t h;
+		struct ext2_extent_info info;
+		struct ext2fs_extent ex;
+		if (ext2fs_extent_open2(fs, ino[f], &in, &h))
+			return;
+		ext2fs_extent_goto2(h, 0, lblk);
+		while (nl < 8 && !ext2fs_extent_get_info(h, &info)) {
+			lev[nl][0] = info.num_entries;
+			lev[nl][1] = info.max_entries;
+			nl++;
+			if (info.curr_level == 0 || ext2fs_extent_get(h, EXT2_EXTENT_UP, &ex))
+				break;
+		}
+		ext2fs_extent_free(h);
+		p += sprintf(p, "[");
+		for (i = nl - 1; i >= 0; i--)
+			p += sprintf(p, "%s[%d,%d]", i == nl - 1 ? "" : ",", lev[i][0], lev[i][1]);
+		sprintf(p, "]");
+	} else {
+		blk64_t A = fs->blocksize / 4;
+		__u32 *blk = (__u32 *) malloc(fs->blocksize);
+		if (lblk < 12)
+			;
+		else if (lblk < 12 + A) {
+			lev[nl][0] = in.i_block[EXT2_IND_BLOCK] ? 0 : 1; lev[nl++][1] = 1;
+		} else if (lblk < 12 + A + A * A) {
+			__u32 ind = 0;
+			lev[nl][0] = in.i_block[EXT2_DIND_BLOCK] ? 0 : 1; lev[nl++][1] = 1;
+			if (in.i_block[EXT2_DIND_BLOCK] && !io_channel_read_blk64(fs->io, in.i_block[EXT2_DIND_BLOCK], 1, blk))
+				ind = ext2fs_le32_to_cpu(blk[(lblk - 12 - A) / A]);
+			lev[nl][0] = ind ? 0 : 1; lev[nl++][1] = 1;
+		} else {
+			lev[nl][0] = in.i_block[EXT2_TIND_BLOCK] ? 0 : 1; lev[nl++][1] = 1;	/* deeper levels not followed */
+		}
+		free(blk);
+		p += sprintf(p, "[");
+		for (i = 0; i < nl; i++)
+			p += sprintf(p, "%s[%d,%d]", i ? "," : "", lev[i][0], lev[i][1]);
+		sprintf(p, "]");
+	}
+}
+
 static void print_obs_one(int f, int doit)
 {
 	struct obs o;
@@ -316,6 +496,7 @@ static void print_obs_one(int f, int doit)
 static void print_files(int which)
 {
 	int f;
+	print_acct();
 	/* is the inode inline data right now (independent of observation) */
 	printf(",\"inl\":[");
 	for (f = 0; f < NF; f++) {
@@ -573,8 +754,10 @@ int main(int argc, char **argv)
 			long long done;
 			if (sscanf(line, "%*s %d %d %d %d", &f, &a, &b, &tag) != 4) die("write args", 0);
 			need_cut(f, a); need_cut(f, b);
+			path_facts(f, cuts[f][a] / fs->blocksize, (cuts[f][b] - 1) / fs->blocksize - cuts[f][a] / fs->blocksize + 1);
 			e = write_range(f, cuts[f][a], cuts[f][b] - cuts[f][a], tag, &done);
 			logop("write", f, a, b, tag, 0, e, done == cuts[f][b] - cuts[f][a]);
+			printf(",\"path\":%s,\"nd\":%d,\"dcut\":%d", pathbuf, path_nd, cut_index(f, cuts[f][a] + done));
 			print_files(-1);
 		} else if (!strcmp(cmd, "iwrite")) {
 			int a1, b1, t1;
@@ -636,6 +819,7 @@ int main(int argc, char **argv)
 			if (sscanf(line, "%*s %d %d %d %d", &f, &a, &b, &mode) != 4 || mode < 0 || mode > 4) die("falloc args", 0);
 			need_aligned(f, a); need_aligned(f, b);
 			ce = close_handle(f);
+			path_facts(f, cuts[f][a] / fs->blocksize, (cuts[f][b] - cuts[f][a]) / fs->blocksize);
 			e = ext2fs_fallocate(fs, fl[mode], ino[f], NULL, ~0ULL, cuts[f][a] / fs->blocksize,
 					     (cuts[f][b] - cuts[f][a]) / fs->blocksize);
 			open_handle(f, 1);
@@ -649,6 +833,7 @@ int main(int argc, char **argv)
 					e = e2;
 			}
 			logop("falloc", f, a, b, 0, mode, e ? e : ce, 1);
+			printf(",\"path\":%s,\"nd\":%d", pathbuf, path_nd);
 			print_files(-1);
 		} else if (!strcmp(cmd, "flush")) {
 			if (sscanf(line, "%*s %d", &f) != 1) die("flush args", 0);
@@ -669,6 +854,59 @@ int main(int argc, char **argv)
 			open_fs(1);
 			open_handle(0, 1); open_handle(1, 1);
 			logop("remount", 0, 0, 0, 0, 0, e1 ? e1 : e2, 1);
+			print_files(-1);
+		} else if (!strcmp(cmd, "mkballast")) {
+			struct ext2_inode inode;
+			ext2_ino_t n;
+			e = ext2fs_new_inode(fs, EXT2_ROOT_INO, 0100644, 0, &n);
+			if (e) die("mkballast new_inode", e);
+			e = ext2fs_link(fs, EXT2_ROOT_INO, "ballast", n, EXT2_FT_REG_FILE);
+			if (e == EXT2_ET_DIR_NO_SPACE) {
+				e = ext2fs_expand_dir(fs, EXT2_ROOT_INO);
+				if (e) die("mkballast expand_dir", e);
+				e = ext2fs_link(fs, EXT2_ROOT_INO, "ballast", n, EXT2_FT_REG_FILE);
+			}
+			if (e) die("mkballast link", e);
+			ext2fs_inode_alloc_stats2(fs, n, +1, 0);
+			memset(&inode, 0, sizeof(inode));
+			inode.i_mode = LINUX_S_IFREG | 0644;
+			inode.i_atime = inode.i_ctime = inode.i_mtime = fs->now ? fs->now : 1600000000;
+			inode.i_links_count = 1;		/* no EXT4_EXTENTS_FL: block mapped on every filesystem */
+			e = ext2fs_write_new_inode(fs, n, &inode);
+			if (e) die("mkballast write_new_inode", e);
+			ino[2] = n;
+		} else if (!strcmp(cmd, "setfree")) {
+			/* absorb free space with the ballast until exactly r units are free: logical blocks >= 12 in the coarse phase
+			   (a block may drag up to two indirect blocks along), the 12 direct slots for the last steps of exactly one block */
+			ext2_file_t h;
+			long long r, fr;
+			static blk64_t coarse = 12, fine = 0;
+			unsigned int w;
+			if (sscanf(line, "%*s %lld", &r) != 1 || !ino[2] || EXT2FS_CLUSTER_RATIO(fs) != 1) die("setfree args", 0);
+			e = ext2fs_file_open2(fs, ino[2], NULL, EXT2_FILE_WRITE, &h);
+			if (e) die("setfree open", e);
+			memset(iobuf, 0x5a, IOBUF);
+			while ((fr = (long long) ext2fs_free_blocks_count(fs->super)) - r > 8) {
+				unsigned int nblk = (fr - r > 80) ? 32 : 1;
+				e = ext2fs_file_llseek(h, (__u64) coarse * fs->blocksize, EXT2_SEEK_SET, NULL);
+				if (e) die("setfree llseek", e);
+				e = ext2fs_file_write(h, iobuf, nblk * fs->blocksize, &w);
+				if (e) die("setfree coarse write", e);
+				coarse += nblk;
+			}
+			while ((fr = (long long) ext2fs_free_blocks_count(fs->super)) > r) {
+				if (fine >= 12) die("setfree: out of direct slots", 0);
+				e = ext2fs_file_llseek(h, (__u64) fine * fs->blocksize, EXT2_SEEK_SET, NULL);
+				if (e) die("setfree llseek", e);
+				e = ext2fs_file_write(h, iobuf, fs->blocksize, &w);
+				if (e) die("setfree fine write", e);
+				fine++;
+			}
+			e = ext2fs_file_close(h);
+			if (e) die("setfree close", e);
+			if ((long long) ext2fs_free_blocks_count(fs->super) != r)
+				die("setfree: cannot reach the requested number of free blocks", 0);
+			logop("setfree", 2, (int) r, 0, 0, 0, 0, 1);
 			print_files(-1);
 		} else if (!strcmp(cmd, "fill")) {
 			ext2_ino_t n;
